@@ -14,4 +14,13 @@ PROPS = {
         "trusted_base": SSZ_TB,
         "assumptions": ["spec constants (domain type, fork version, genesis validators root, Lido key and address) are hand-copied into Ssz/Rotation.v from the consensus spec / property text and proved equal to the regenerated live values"],
     },
+    "C05": {
+        "props": "Props/C05.v",
+        "scenarios": ["c05"],
+        "rule": "breadth-first exploration of the IMPLEMENTATION's reachable abstract round states through dumps (FromDump + Do), to a fixpoint, for (n,t) = (2,2), (3,2) with the full alphabet (every public event incl. hand-overs, internal and unknown events, type-confused requests; every participant id incl. -1, n, n+1; payload variants valid / empty / late / zero-time / other key / other polynomial) and (3,3) with the core alphabet [thorough: + n=4]. One case = one (abstract state, event) pair; non-trivial = the event is routed to a callback (classes ok / err). Every case is compared with the extracted Coq model (state, dump state, response, full payload) and judged by the C05 oracles (rejection is a no-op, cancel is final, causes, ready shape).",
+        "exhaustive": {"quick": True, "thorough": True},
+        "trusted_base": ["JSON encoding of dumps (encoding/json) is outside the model: the harness decodes dumps with the same library",
+                         "time.Time modelled as whole seconds relative to the harness epoch"],
+        "assumptions": ["transition tables, fin states, callback registration, pool maps and deadlines are regenerated from the live objects on every run"],
+    },
 }
